@@ -49,7 +49,13 @@ func (o c20Op) run() (res string) {
 	case "write":
 		s := o.Spec.build()
 		var buf bytes.Buffer
-		err := writeFormat(o.Format, s, &buf)
+		var err error
+		if strings.HasPrefix(o.Format, "ttml-indent:") {
+			// a per-call option: must not leak into any other call
+			err = s.WriteToTTML(&buf, astisub.WriteToTTMLWithIndentOption(strings.TrimPrefix(o.Format, "ttml-indent:")))
+		} else {
+			err = writeFormat(o.Format, s, &buf)
+		}
 		return fmt.Sprintf("%v|%s|%s", err, hashOf(buf.Bytes()), hashOf([]byte(canon(s))))
 	default:
 		b := buildList(o.Cues)
@@ -107,6 +113,13 @@ func checkC20(c c20Case) string {
 	want := make([]string, len(c.Ops))
 	for i, o := range c.Ops {
 		want[i] = o.run()
+	}
+	// "alone" must not depend on what ran before: the same calls, one after the other, in the opposite order
+	for i := len(c.Ops) - 1; i >= 0; i-- {
+		if again := c.Ops[i].run(); again != want[i] {
+			return fmt.Sprintf("operation %d (%s %s%s) returned a different result when the same calls were made one after the other in the opposite order: state is kept between calls\n--- first ---\n%s\n--- then ---\n%s",
+				i, c.Ops[i].Kind, c.Ops[i].Format, c.Ops[i].Name, clip(want[i], 500), clip(again, 500))
+		}
 	}
 	g := c.Goroutines
 	if g < 1 {
@@ -194,6 +207,14 @@ func TestC20(t *testing.T) {
 		var pool []c20Op
 		for i := 0; i < base; i++ {
 			pool = append(pool, genC20Op(rt))
+		}
+		if rapid.IntRange(0, 3).Draw(rt, "optiontrio") == 0 {
+			// the same list written with per-call options and without
+			g := genGL(rt, false)
+			for _, f := range []string{"ttml", "ttml-indent:" + rapid.SampledFrom([]string{"", "\t"}).Draw(rt, "indentA"), "ttml-indent:" + rapid.SampledFrom([]string{"  ", "        "}).Draw(rt, "indentB")} {
+				pool = append(pool, c20Op{Kind: "write", Format: f, Spec: &g})
+			}
+			base = len(pool)
 		}
 		for i := 0; i < n; i++ {
 			c.Ops = append(c.Ops, pool[rapid.IntRange(0, base-1).Draw(rt, "pick")])
